@@ -1,6 +1,247 @@
 package main
 
-// Environment models (time, context, codecs, storage engines). Reset per path.
+// Environment models: context, time (timers/tickers). Reset per path.
+
+import (
+	"fmt"
+	"go/types"
+
+	"golang.org/x/tools/go/ssa"
+)
 
 func resetEnvModels() {
+	tickerTimers = map[*value]*timer{}
+}
+
+// ---------------------------------------------------------------- context
+
+type ctxObj struct {
+	parent   *ctxObj
+	done     *channel
+	err      value // iface (error) once cancelled
+	children []*ctxObj
+	timer    *timer
+	key, val value
+}
+
+func ctxType(i *interpreter) types.Type {
+	pkg := i.prog.ImportedPackage("context")
+	if pkg == nil {
+		panic(engineError{"context package not loaded"})
+	}
+	return types.NewPointer(pkg.Type("cancelCtx").Type())
+}
+
+func wrapCtx(i *interpreter, c *ctxObj) value {
+	var cell value = c
+	return iface{t: ctxType(i), v: &cell}
+}
+
+func unwrapCtx(v value) *ctxObj {
+	switch v := v.(type) {
+	case iface:
+		if v.t == nil {
+			panic(targetRuntimeError{"cannot create context from nil parent"})
+		}
+		if pv, ok := v.v.(*value); ok && pv != nil {
+			if c, ok := (*pv).(*ctxObj); ok {
+				return c
+			}
+		}
+		panic(engineError{"context value not created by the engine's context model: " + v.t.String()})
+	case *value:
+		if c, ok := (*v).(*ctxObj); ok {
+			return c
+		}
+	}
+	panic(engineError{fmt.Sprintf("unwrapCtx %T", v)})
+}
+
+func ctxGlobalErr(i *interpreter, name string) value {
+	pkg := i.prog.ImportedPackage("context")
+	g := pkg.Members[name].(*ssa.Global)
+	if cell, ok := i.globals[g]; ok {
+		return *cell
+	}
+	return mkErrorValue(i, "context: "+name)
+}
+
+func (c *ctxObj) doneChan() *channel {
+	if c.done == nil {
+		c.done = newChannel(0, types.NewStruct(nil, nil))
+		if c.err != nil {
+			c.done.closed = true
+		}
+	}
+	return c.done
+}
+
+func (c *ctxObj) cancel(err value) {
+	if c.err != nil {
+		return
+	}
+	c.err = err
+	if c.done == nil {
+		c.done = newChannel(0, types.NewStruct(nil, nil))
+		c.done.closed = true
+	} else if !c.done.closed {
+		chClose(c.done)
+	}
+	if c.timer != nil {
+		c.timer.stopped = true
+	}
+	for _, ch := range c.children {
+		ch.cancel(err)
+	}
+}
+
+func newChildCtx(parent *ctxObj) *ctxObj {
+	c := &ctxObj{parent: parent}
+	if parent != nil {
+		parent.children = append(parent.children, c)
+		if parent.err != nil {
+			c.cancel(parent.err)
+		}
+	}
+	return c
+}
+
+func init() {
+	ext("context.Background", func(fr *frame, a []value) value { return wrapCtx(fr.i, &ctxObj{}) })
+	ext("context.TODO", func(fr *frame, a []value) value { return wrapCtx(fr.i, &ctxObj{}) })
+	ext("context.WithCancel", func(fr *frame, a []value) value {
+		c := newChildCtx(unwrapCtx(a[0]))
+		i := fr.i
+		cancel := &nativeFn{"context.cancel", func(fr *frame, _ []value) value {
+			c.cancel(ctxGlobalErr(i, "Canceled"))
+			return nil
+		}}
+		return tuple{wrapCtx(fr.i, c), cancel}
+	})
+	withTimeout := func(fr *frame, a []value, dur int64) value {
+		c := newChildCtx(unwrapCtx(a[0]))
+		i := fr.i
+		S.timerSeq++
+		c.timer = &timer{dur: dur, seq: S.timerSeq, fn: func() { c.cancel(ctxGlobalErr(i, "DeadlineExceeded")) }}
+		if c.err != nil {
+			c.timer.stopped = true
+		}
+		S.timers = append(S.timers, c.timer)
+		cancel := &nativeFn{"context.cancel", func(fr *frame, _ []value) value {
+			c.cancel(ctxGlobalErr(i, "Canceled"))
+			return nil
+		}}
+		return tuple{wrapCtx(fr.i, c), cancel}
+	}
+	ext("context.WithTimeout", func(fr *frame, a []value) value { return withTimeout(fr, a, asInt64(a[1])) })
+	ext("context.WithDeadline", func(fr *frame, a []value) value { return withTimeout(fr, a, 1<<40) })
+	ext("context.WithValue", func(fr *frame, a []value) value {
+		c := newChildCtx(unwrapCtx(a[0]))
+		c.key, c.val = a[1], a[2]
+		return wrapCtx(fr.i, c)
+	})
+	ext("(*context.cancelCtx).Done", func(fr *frame, a []value) value {
+		c := unwrapCtx(a[0])
+		if c.parent == nil && c.done == nil && c.err == nil && c.timer == nil {
+			// background: never done; a nil channel blocks forever
+			return (*channel)(nil)
+		}
+		return c.doneChan()
+	})
+	ext("(*context.cancelCtx).Err", func(fr *frame, a []value) value {
+		c := unwrapCtx(a[0])
+		if c.err == nil {
+			return iface{}
+		}
+		return c.err
+	})
+	ext("(*context.cancelCtx).Value", func(fr *frame, a []value) value {
+		for c := unwrapCtx(a[0]); c != nil; c = c.parent {
+			if c.key != nil {
+				if truth(equalsV(types.NewInterfaceType(nil, nil), c.key, a[1]), "ctxkey") {
+					return c.val
+				}
+			}
+		}
+		return iface{}
+	})
+	ext("(*context.cancelCtx).Deadline", func(fr *frame, a []value) value { return zeroResult(fr.fn) })
+	ext("(*context.cancelCtx).String", func(fr *frame, a []value) value { return "context" })
+
+	// ------------------------------------------------------------ time
+	ext("time.After", func(fr *frame, a []value) value {
+		ch := newChannel(1, types.Typ[types.Int64])
+		S.timerSeq++
+		S.timers = append(S.timers, &timer{ch: ch, dur: asInt64(a[0]), seq: S.timerSeq})
+		return ch
+	})
+	ext("time.NewTicker", func(fr *frame, a []value) value { return newTickerValue(fr, asInt64(a[0]), true) })
+	ext("time.NewTimer", func(fr *frame, a []value) value { return newTickerValue(fr, asInt64(a[0]), false) })
+	ext("time.Tick", func(fr *frame, a []value) value {
+		ch := newChannel(1, types.Typ[types.Int64])
+		S.timerSeq++
+		S.timers = append(S.timers, &timer{ch: ch, dur: asInt64(a[0]), seq: S.timerSeq, periodic: true})
+		return ch
+	})
+	stop := func(fr *frame, a []value) value {
+		p := a[0].(*value)
+		if t, ok := tickerTimers[p]; ok {
+			was := !t.stopped && t.fires == 0
+			t.stopped = true
+			if fr.fn.Signature.Results().Len() == 1 {
+				return was
+			}
+		}
+		if fr.fn.Signature.Results().Len() == 1 {
+			return false
+		}
+		return nil
+	}
+	ext("(*time.Ticker).Stop", stop)
+	ext("(*time.Timer).Stop", stop)
+	ext("time.AfterFunc", func(fr *frame, a []value) value {
+		i := fr.i
+		f := a[1]
+		S.timerSeq++
+		t := &timer{dur: asInt64(a[0]), seq: S.timerSeq}
+		t.fn = func() {
+			S.spawn("afterfunc", func() { call(i, nil, 0, f, nil) })
+		}
+		S.timers = append(S.timers, t)
+		return newTimerStruct(fr, "Timer", nil, t)
+	})
+}
+
+var tickerTimers map[*value]*timer
+
+func newTimerStruct(fr *frame, tname string, ch *channel, t *timer) value {
+	pkg := fr.i.prog.ImportedPackage("time")
+	typ := pkg.Type(tname).Type()
+	st := zero(typ).(structure)
+	ts := typ.Underlying().(*types.Struct)
+	for k := 0; k < ts.NumFields(); k++ {
+		if ts.Field(k).Name() == "C" {
+			if ch == nil {
+				st[k] = (*channel)(nil)
+			} else {
+				st[k] = ch
+			}
+		}
+	}
+	var cell value = st
+	p := &cell
+	tickerTimers[p] = t
+	return p
+}
+
+func newTickerValue(fr *frame, dur int64, periodic bool) value {
+	ch := newChannel(1, types.Typ[types.Int64])
+	S.timerSeq++
+	t := &timer{ch: ch, dur: dur, seq: S.timerSeq, periodic: periodic}
+	S.timers = append(S.timers, t)
+	name := "Timer"
+	if periodic {
+		name = "Ticker"
+	}
+	return newTimerStruct(fr, name, ch, t)
 }
